@@ -422,7 +422,28 @@ def run(ctx, deep=False):
     if jobs:
         gen, label, ops, base = jobs[0]
         ctx.sample({"script": label, "gen": gen, "ops": ops[base:base + 10]})
+    two_objects(ctx, thorough)
     c10.tie(ctx, "C12", 400 if thorough else 40, first=5)
+
+
+def two_objects(ctx, thorough):
+    """who is notified by one client object does not depend on another client object of the same generation in the same process (two
+    consoles in one home): each script's NOTIFY / VIEW lines, run alternately with another installation's script, equal those of a run alone"""
+    for gen in (4, 5):
+        for k in range(10 if thorough else 3):
+            oa, _ = make_script(ctx.rng, gen, 25)
+            ob, _ = make_script(ctx.rng, gen, 25)
+            solo = (c10.run_real(gen, oa), c10.run_real(gen, ob))
+            both = c10.run_interleaved(gen, oa, ob)
+            ctx.case(("two-objects", gen, k))
+            for name, ops, s1, s2 in (("first", oa, solo[0], both[0]), ("second", ob, solo[1], both[1])):
+                d = next((i for i, (x, y) in enumerate(zip(s1, s2)) if x != y), None)
+                ctx.count("%d:two-objects:%s" % (gen, "same" if d is None else "differs"))
+                if d is not None:
+                    ctx.violation("C12:%d:two-objects" % gen, "AirTouch %d: two client objects in one process, scripts run alternately: the %s object's output for op %d `%s` is %s, "
+                                  "run alone it is %s" % (gen, name, d, ops[d][:80], [x for x in s2[d] if not x.startswith("VIEW")][:6], [x for x in s1[d] if not x.startswith("VIEW")][:6]),
+                                  kind="history", level="two-objects", gen=gen, ops_a=oa, ops_b=ob, implementation_output=str(s2[d])[:600], spec_verdict=str(s1[d])[:600])
+                    return
 
 
 def search(ctx):
@@ -436,6 +457,8 @@ def search(ctx):
 
 
 def replay(ctx, data):
+    if data.get("level") == "two-objects":
+        return c10.replay(ctx, data)
     gen, ops, base, key = data["gen"], data["ops"], data.get("base", 0), data.get("failure")
     ok, bad, _ = judge(gen, ops, base)
     out = c10.run_real(gen, ops)
